@@ -65,6 +65,8 @@ def beam_lineload_rule(ctx):
                     Get_beam_N_e_pg=lambda bs, *a, **k: XArray((1, nPg, dof_n, n), [Nbeam[p][rr][j] for p in range(nPg) for rr in range(dof_n) for j in range(n)]),
                     Get_N_pg=lambda mt=None: XArray((nPg, 1, nPe), [Nl[p][m] for p in range(nPg) for m in range(nPe)]),
                     _Get_assembly_e=lambda connect, d: XArray((1, n), [Lbl("asm", j) for j in range(n)]),
+                    # the geometric frame of the line elements: NOT the frame of the member (the user gives its y axis)
+                    _Get_sysCoord_e=lambda *a, **k: XArray((1, 3, 3), [Poly.var(f"S{a}{b}") for a in range(3) for b in range(3)]),
                 ))
                 obj = XObj(bcls, dict(
                     structure=SimpleNamespace(dim=2, dof_n=dof_n, beams=[beam]), problemType=Opaque("pt"), mesh=SimpleNamespace(Nn=8, groupElem=group),
